@@ -400,6 +400,7 @@ func (ex *Exec) runPath(it workItem) (end string, msg string) {
 	ex.frame = nil
 	ex.ndSeq, ex.mndSeq, ex.errSeq, ex.clockSeq = 0, 0, 0, 0
 	ex.cpos = 0
+	ex.ufIdx = map[string]int{}
 	ex.lastClock = nil
 	ex.ndVars = nil
 	ex.obs = nil
@@ -500,6 +501,8 @@ func (ex *Exec) witness(m Model) []WitnessVal {
 		switch nv.Kind {
 		case "float64":
 			out = append(out, WitnessVal{nv.Kind, fmt.Sprintf("0x%016x", v)})
+		case "float32":
+			out = append(out, WitnessVal{nv.Kind, fmt.Sprintf("0x%08x", v)})
 		case "int", "int64":
 			out = append(out, WitnessVal{nv.Kind, strconv.FormatInt(int64(v), 10)})
 		default:
@@ -592,6 +595,24 @@ func (ex *Exec) reportViolation(id, msg string, m Model) {
 }
 
 func (ex *Exec) reportViolationK(id, msg string, m Model, known string) {
+	// self-check: the counterexample model must satisfy every constraint of the path condition
+	if m != nil {
+		memo := map[int]uint64{}
+		for i, t := range ex.pcTerms {
+			if v, ok := ex.tc.Eval(t, m, memo); ok && v == 0 {
+				if os.Getenv("GOSYM_DEBUG_PC") != "" {
+					fmt.Fprintf(os.Stderr, "PC term %d/%d false under model: %s  [solver level %d, model size %d, syncLen %d, prefix %d, decisions %d]\n", i, len(ex.pcTerms), t.String(), ex.solver.Level(), len(m), ex.syncLen, len(ex.prefix), len(ex.decisions))
+					var vs []*Term
+					t.Vars(map[int]bool{}, &vs)
+					for _, v := range vs {
+						val, present := m[v.name]
+						fmt.Fprintf(os.Stderr, "   %s = %#x present=%v\n", v.name, val, present)
+					}
+				}
+				ex.inconclusive(fmt.Sprintf("engine self-check: counterexample model for %s violates path-condition term %d (evaluator and solver disagree)", id, i))
+			}
+		}
+	}
 	h := ex.h
 	v := Violation{Harness: h.decl.Name, Assert: id, Msg: msg, Witness: ex.witness(m), Obs: ex.obsStrings(m), Known: known}
 	h.mu.Lock()
@@ -663,6 +684,9 @@ func init() {
 		},
 		"vnondetFloat64": func(ex *Exec, fn *ssa.Function, a []Value) (Value, bool) {
 			return ex.newND("float64", F64Sort), true
+		},
+		"vnondetFloat32": func(ex *Exec, fn *ssa.Function, a []Value) (Value, bool) {
+			return ex.newND("float32", F32Sort), true
 		},
 		"vnondetString": func(ex *Exec, fn *ssa.Function, a []Value) (Value, bool) {
 			mx, ok := termInt(a[0])
@@ -746,6 +770,19 @@ func init() {
 		"vthorough": func(ex *Exec, fn *ssa.Function, a []Value) (Value, bool) {
 			return ex.tc.Bool(ex.h.cfg.Tier == "thorough"), true
 		},
+		// vuf32(tag, d): an uninterpreted function float64 -> float32 (one fresh value per distinct argument term)
+		"vuf32": func(ex *Exec, fn *ssa.Function, a []Value) (Value, bool) {
+			tag, _ := concreteStr(a[0])
+			d := a[1].(*Term)
+			// name by order of first use on this path: term ids differ between workers, models travel between them
+			key := fmt.Sprintf("%s_%d", tag, d.id)
+			k, ok := ex.ufIdx[key]
+			if !ok {
+				k = len(ex.ufIdx)
+				ex.ufIdx[key] = k
+			}
+			return ex.tc.Var(fmt.Sprintf("uf_%s_%d", tag, k), F32Sort), true
+		},
 		"vand": func(ex *Exec, fn *ssa.Function, a []Value) (Value, bool) {
 			return ex.tc.And(a[0].(*Term), a[1].(*Term)), true
 		},
@@ -792,7 +829,24 @@ func (ex *Exec) verdict(c *Term) (string, Model) {
 		if c.cval == 0 {
 			return "unsat", nil
 		}
-		return "sat", ex.completeModel(ex.model)
+		// the assertion fails on every run of this path: it is a violation iff the path is feasible
+		if ex.model != nil {
+			return "sat", ex.model
+		}
+		if ex.solver == nil {
+			return "sat", Model{}
+		}
+		switch r := ex.solver.Check(); r {
+		case "sat":
+			if m := ex.fetchModel(); m != nil {
+				return "sat", m
+			}
+			ex.inconclusive("no model for a feasible failing path")
+		case "unsat":
+			return "unsat", nil
+		default:
+			ex.inconclusive("feasibility of a path on which an assertion fails: solver answered " + r)
+		}
 	}
 	if ex.model != nil {
 		if v, ok := ex.tc.Eval(c, ex.model, map[int]uint64{}); ok && v != 0 {
